@@ -353,6 +353,39 @@ fn exec_c<C: Suite>(scen: &Scenario) -> Exec {
             }
         }
     }
+    // Taproot: a signature made by the harness's own BIP-340 signer (valid), and its mirror - the same x(R) with the response that
+    // belongs to -R (invalid: BIP-340 demands an even-Y R). Ordinary verification, verify_single, libsecp256k1 and the batch
+    // verifier must agree on both.
+    {
+        let mut hp = stream(scen.seed, scen.run, "c19/bip340pair");
+        let msg = gen_message(&mut hp);
+        if let Some((hvk, good, mirror)) = C::harness_bip340_pair(&mut hp, &msg) {
+            for (what, sig, expect) in [("harness-made BIP-340 signature", good, true), ("mirrored BIP-340 signature (response of -R)", mirror, false)] {
+                let it = It { vk: hvk, msg: msg.clone(), sig };
+                let ordinary = single_ok(&it);
+                let vs = Item::<C>::new(it.vk, it.sig, &it.msg).map(|x| x.verify_single().is_ok());
+                let third = C::third_party_verify(&it.vk.serialize().unwrap_or_default(), &it.msg, &it.sig.serialize().unwrap_or_default());
+                rep.evaluations += 3;
+                if vs != Ok(ordinary) {
+                    return Exec::Violation(viol("C19.verify_single_disagrees", format!("{what}: verify_single = {vs:?}, VerifyingKey::verify = {ordinary}")), rep);
+                }
+                if third.is_some() && third != Some(expect) {
+                    return Exec::Harness(format!("{what}: libsecp256k1 says {third:?}, construction expects {expect}"));
+                }
+                if third.is_some() && third != Some(ordinary) {
+                    return Exec::Violation(viol("C19.verify_single_disagrees", format!("{what}: VerifyingKey::verify and verify_single = {ordinary}, the independent BIP-340 verifier = {third:?}")), rep);
+                }
+                let mut b = items.clone();
+                b.insert(b.len() / 2, it);
+                match batch_verdict::<C>(&b, scen.seed, scen.run, &format!("bip340pair/{expect}"), &mut rep) {
+                    Err(e) => return Exec::Violation(viol("C19.verifier_streams_disagree", format!("{what}: {e}")), rep),
+                    Ok(v) if v != ordinary => return Exec::Violation(viol(if v { "C19.invalid_item_accepted" } else { "C19.valid_batch_rejected" }, format!("{what} in a batch of {}: batch verdict {v}, single verification {ordinary}", b.len())), rep),
+                    Ok(_) => {}
+                }
+            }
+            rep.probe("bip340_mirrored_signature");
+        }
+    }
     // complementary pairs: errors that cancel unless every item has its own blinder
     if size >= 2 {
         let mut pairs: Vec<(usize, usize)> = Vec::new();
